@@ -159,7 +159,8 @@ def check_model(case):
             if lost:
                 res.fail('from_dataframe/strict/columns-lost', f'{detail}: strict import of columns {list(df.columns)} returned a model '
                          f'without the data of {lost}')
-        elif not isinstance(strict_back.exc, InitialisationError):
+        elif not isinstance(strict_back.exc, (InitialisationError, NotImplementedError)):
+            # (NotImplementedError: the library's documented refusal when two variable names differ only in case - as in C09)
             res.fail(f'from_dataframe/strict/raised-{strict_back.exc_name}', f'{detail}: {strict_back!r}')
     return res
 
